@@ -95,7 +95,26 @@ def check(model, rep, tier):
             witness='x = True on one path, x = 1 on the other')
   init = tm.methods['__init__']
   src = core.norm(init.node)
-  rep.check('{s: set(other_types) for s, other_types in init_from.types.items()}' in src,
+  ip = init.params()[0]
+  copies = False
+  for n in ast.walk(init.node):
+    # self.types = {k: set(v) for k, v in <init>.types.items()}
+    if isinstance(n, ast.DictComp) and len(n.generators) == 1 and not n.generators[0].ifs \
+        and core.norm(n.generators[0].iter) == ip + '.types.items()' and isinstance(
+            n.generators[0].target, ast.Tuple) and len(n.generators[0].target.elts) == 2:
+      k_, v_ = [core.norm(e) for e in n.generators[0].target.elts]
+      copies = copies or (core.norm(n.key) == k_ and core.norm(n.value) in (
+          'set(%s)' % v_, '%s.copy()' % v_, 'set(%s.copy())' % v_))
+    # for k, v in <init>.types.items(): self.types[k] = set(v)
+    if isinstance(n, ast.For) and core.norm(n.iter) == ip + '.types.items()' and isinstance(
+        n.target, ast.Tuple) and len(n.target.elts) == 2 and len(n.body) == 1 and \
+        not any(isinstance(x, (ast.Break, ast.Continue, ast.If)) for x in ast.walk(n)):
+      k_, v_ = [core.norm(e) for e in n.target.elts]
+      st = n.body[0]
+      copies = copies or (isinstance(st, ast.Assign) and core.norm(st.targets[0]) ==
+                          'self.types[%s]' % k_ and core.norm(st.value) in (
+                              'set(%s)' % v_, '%s.copy()' % v_))
+  rep.check(copies,
             'TI-STATE', '%s:copies-sets' % init.site,
             'copying a type map must copy each type set (no sharing between '
             'states)', line=init.node.lineno)
